@@ -44,7 +44,7 @@ fn analyse(c: &Case) -> Dump {
     if c.reindex {
         a.reindex();
     }
-    hist::dump_of(&a, &[])
+    hist::dump_full(&a)
 }
 
 fn dump_from_text(t: &str) -> Dump {
